@@ -191,7 +191,7 @@ def run_case(ns, ctx, c):
     if name.startswith("layer:"):
         layer = name.split(":")[1]
         ws, bs = [], []
-        reps = 40
+        reps = 40 if layer != "Neuron" else 600          # (a Neuron has a single bias: many constructions for a usable sample)
         for _ in range(reps):
             if layer == "Linear":
                 m = ns.nn.Linear(50, 20); fan = 50
@@ -219,7 +219,9 @@ def run_case(ns, ctx, c):
         bound = 1 / math.sqrt(fan)
         for which, arr in (("weight", np.concatenate(ws)), ("bias", np.concatenate(bs))):
             why = band_uniform(arr.astype(np.float64), -bound, bound) if arr.size >= 2000 else \
-                ([] if (np.abs(arr).max() <= bound * (1 + 1e-6) and np.abs(arr).max() > bound * 0.9) else [f"max |x| {np.abs(arr).max():.4g} vs bound {bound:.4g}"])
+                ([] if (np.abs(arr).max() <= bound * (1 + 1e-6) and np.abs(arr).max() > bound * math.exp(-20.7 / max(1, arr.size))) else [f"max |x| {np.abs(arr).max():.4g} vs bound {bound:.4g}"])
+            # (small samples: the largest of n uniform draws falls below bound * exp(-20.7 / n) with probability 1e-9 - a fixed 0.9 was a false
+            #  alarm waiting to happen for the 40 biases of the Neuron case: seen once in a thorough sweep)
             counters["layer_bands"] = counters.get("layer_bands", 0) + 1
             if why:
                 viol.append(V(f"layer:{layer}:{which}:distribution", f"fresh {layer} {which} is not U(-1/sqrt(fan_in), 1/sqrt(fan_in)) with fan_in={fan}: " + "; ".join(why)))
